@@ -260,7 +260,7 @@ ADDED = {
     "C17": "Added later: 11 ways of producing the offending value (name, calls, field, index, select, copied field, format, concatenation, reduce) x 13 consumers that fault on it (operands of + and &&, cast, not, call / copy of a non-function / non-tuple, range end, select, map target, wrongly typed call argument and module parameter); thorough: every nesting position once more with the fault one construct deeper (9 expression-level positions). Faults inside functions called back by map / filter / reduce over lists, tuples and strings; three format-expression (@{}) positions; module results and a module out-expression as producers / positions. What the real `ucg build` prints for a sample; unterminated strings; values that do not fit a named constraint / let-bound exemplar. Callbacks defined earlier as producers; statically found faults inside a file imported by a let (1-2 imports deep); module out constraints.",
     "C18": "Added later: a set and an unset name read from 12 further places (function / module body, callbacks, tuple field, select arm, format argument, imported files incl. functions / modules defined there and a file imported by an imported file) x bare/quoted x strict/--no-strict; every other binding construct tried with `env`. 20 places in all (tuple / string callbacks, nested functions, a module instantiated in a callback); two reads in one file in every order; a variable whose value is not UTF-8 beside the ones read. The recursive directory walk (depth 0..2); env copied / handed on / stored after some fields were read. The smallest environments (HOME and at most one short variable beside a short secret).",
     "C19": "Added later: parse_int over every digit-led string of length <= 3 over {1, 0, 9, a, -, blank, three non-ASCII decimal digits, e-acute}. List shapes with the non-conforming element at every position; module-style helpers inside a tuple copy using self; parse_int with nothing to parse; the partial flag inside lists. Long digit runs for parse_int; helpers on tuples that come out of a copy; 15 s watchdog per file and a hang cap. Sixth round: 15 characters of every UTF-8 width and low-byte class, alone, doubled and between ASCII letters, through every string helper.",
-    "C20": "Added later: 12 import triangles with permuted names on disk; a decoy first content change in didChange; every document of <= 3 tokens over a 10-token (thorough 14) vocabulary, bare and after a line of definitions, swept with hover / definition / completion at every position and semanticTokens. Positions at 2^32-1, a string spanning lines, a field chain through an import, a large document on disk, re-sent didOpen after didClose, unsaved siblings; in-session sweeps after every message of the <= 2-message sessions. Eight triangles over sub-directories with ../ imports. A 30-deep list and a 10-deep mixed nesting as document texts. Sixth round: a document that is not on disk opened and closed before, after and around a document that imports it.",
+    "C20": "Added later: 12 import triangles with permuted names on disk; a decoy first content change in didChange; every document of <= 3 tokens over a 10-token (thorough 14) vocabulary, bare and after a line of definitions, swept with hover / definition / completion at every position and semanticTokens. Positions at 2^32-1, a string spanning lines, a field chain through an import, a large document on disk, re-sent didOpen after didClose, unsaved siblings; in-session sweeps after every message of the <= 2-message sessions. Eight triangles over sub-directories with ../ imports. A 30-deep list and a 10-deep mixed nesting as document texts. Sixth round: a document that is not on disk opened and closed before, after and around a document that imports it; the file of an open document deleted on disk before the document is closed.",
 }
 
 CLAIMED = ["C01", "C02", "C03", "C04", "C05", "C06", "C07", "C08", "C09", "C10", "C11", "C12", "C13", "C14", "C15", "C16", "C17", "C18", "C19", "C20"]
